@@ -48,8 +48,10 @@ type c06Obs struct {
 	Consumes  []Bs   `json:"consumes"`
 	Keys      []Bs   `json:"keys"`
 	HasBody   bool   `json:"has_body"`
-	Parse     *Bs    `json:"parse"`
-	Reparse   *Bs    `json:"reparse"`
+	Asked     Bs     `json:"asked"`   // the value the harness itself handed to mime.ParseMediaType
+	Parse     *Bs    `json:"parse"`   // ... and the media type answered (nil = error); independent of runtime.ContentType
+	Reparse   *Bs    `json:"reparse"` // ParseMediaType on that media type again
+	CTImpl    *Bs    `json:"ct_impl"` // what runtime.ContentType answers for the request's header (nil = error)
 	T, U      c06Res `json:"-"`
 	TJ        c06Res `json:"typed"`
 	UJ        c06Res `json:"untyped"`
@@ -68,7 +70,8 @@ func (c06) ID() string        { return "C06" }
 func (c06) CoqModule() string { return "Check_C06" }
 func (c06) Rule() string {
 	return "consumes lists over concrete types, type/*, */*, entries with parameters, empty, per operation or global, with/without an API default, " +
-		"consumers registered for a subset; Content-Type from a grammar (case, parameters, OWS, quoted strings, duplicate lines, absent) plus malformed values; " +
+		"consumers registered for a subset; Content-Type from a grammar (case, parameters, OWS, quoted strings, duplicate lines, absent) plus malformed values " +
+		"plus values with commas (inside and outside quoted strings, leading, trailing, several media types in one value, several header lines, an empty first line); " +
 		"body signalled by Content-Length, chunked (ContentLength -1), an explicit Content-Length: 0 header, an empty chunked stream, or absent; methods POST/PUT/PATCH/DELETE/GET. " +
 		"Non-trivial: the request has a body and the consumes list has >=2 entries or a wildcard."
 }
@@ -84,7 +87,8 @@ func (c06) Enumerate(tier string) []any {
 	var out []any
 	lists := [][]Bs{{"application/json"}, {"text/plain"}, {"application/*"}, {"*/*"}, {"text/*", "application/json"}, {}}
 	for _, l := range lists {
-		for _, ct := range []string{"application/json", "text/plain", "application/xml", "image/png", "APPLICATION/JSON", "text/plain; charset=utf-8", "", "a/", "text"} {
+		for _, ct := range []string{"application/json", "text/plain", "application/xml", "image/png", "APPLICATION/JSON", "text/plain; charset=utf-8", "", "a/", "text",
+			"application/json, text/plain", "application/json,", "text/plain; note=\"a,b\"", "application/xml;q=1 , application/json"} {
 			for _, b := range []string{"cl", "chunked", "none"} {
 				for _, def := range []Bs{"", "application/json"} {
 					in := c06In{Declared: l, Default: def, Registered: []Bs{"application/json", "text/plain", "application/xml"}, Method: "POST", Body: b}
@@ -119,10 +123,65 @@ func c06Case(r *rand.Rand, s string) string {
 	return s
 }
 
-func c06Header(r *rand.Rand) []Bs {
+// values with a comma: a Content-Type header holds ONE media type, so a comma is legal only inside a quoted
+// parameter value; whether a given value parses is decided by mime.ParseMediaType (the oracle), not here
+func c06CommaHeader(r *rand.Rand) []Bs {
+	pick := func() string {
+		if r.Intn(6) == 0 {
+			return []string{"text/html", "image/jpeg", "application/x-yaml", "multipart/form-data"}[r.Intn(4)]
+		}
+		return c06Case(r, c06Pool[r.Intn(len(c06Pool))])
+	}
+	sp := func() string { return []string{"", "", " ", "  ", "\t"}[r.Intn(5)] }
+	qv := []string{"\"a,b\"", "\",\"", "\"a, b; c\"", "\"a\\\",b\"", "\"x\", y=\"z\"", "\"a,b"} // the last one never closes
+	a, b := pick(), pick()
+	var v string
 	switch r.Intn(12) {
+	case 0: // several media types in one value
+		v = a + sp() + "," + sp() + b
+	case 1: // trailing
+		v = a + sp() + "," + sp()
+	case 2: // leading
+		v = sp() + "," + sp() + a
+	case 3: // inside a quoted parameter value (legal)
+		v = a + sp() + ";" + sp() + "note=" + qv[r.Intn(len(qv))]
+	case 4: // in an unquoted parameter value
+		v = a + "; note=a,b"
+	case 5: // after a parameter
+		v = a + "; charset=utf-8" + sp() + "," + sp() + b
+	case 6: // quoted comma, then a second media type
+		v = a + "; note=" + qv[r.Intn(len(qv))] + sp() + "," + sp() + b + "; q=0.5"
+	case 7: // three media types
+		v = a + "," + b + "," + pick()
+	case 8: // only commas
+		v = []string{",", ",,", " , "}[r.Intn(3)]
+	case 9: // quoted comma among other parameters
+		v = a + "; charset=utf-8; note=" + qv[r.Intn(len(qv))] + "; version=1"
+	case 10: // comma inside the media type itself
+		v = []string{"application,json", "application/,json", "text/pl,ain", "a,b/c"}[r.Intn(4)]
+	default: // second media type malformed / first malformed
+		v = []string{a + ", /", "/ ," + a, a + ",;", a + ", " + b + ";"}[r.Intn(4)]
+	}
+	lines := []Bs{Bs(v)}
+	switch r.Intn(8) {
+	case 0: // a further header line: only the first counts
+		lines = append(lines, Bs(b))
+	case 1: // plain first line, the comma in a later one
+		lines = []Bs{Bs(a), Bs(v)}
+	case 2: // three lines
+		lines = []Bs{Bs(a), Bs(v), Bs(b)}
+	case 3: // an empty first line stands for the default, whatever follows
+		lines = []Bs{"", Bs(v)}
+	}
+	return lines
+}
+
+func c06Header(r *rand.Rand) []Bs {
+	switch r.Intn(15) {
 	case 0:
 		return nil
+	case 3, 4, 5:
+		return c06CommaHeader(r)
 	case 1:
 		bad := []string{"a/", "/b", "a;b", ";", "application/json; charset", "text/plain; charset=\"utf-8", "application/json;char*", "application(", "a/b/c",
 			"application/json; charset=utf-8; charset=ascii", " ", "text/plain;;", "application/json,text/plain", "\xff/\xfe", "application/ json"}
@@ -370,13 +429,33 @@ func (c06) Run(inAny any) any {
 	}
 	sort.Slice(obs.Keys, func(i, j int) bool { return obs.Keys[i] < obs.Keys[j] })
 	obs.HasBody = runtime.HasBody(c06Request(in))
-	if ct, _, err := runtime.ContentType(c06Request(in).Header); err == nil {
-		p := Bs(ct)
+	// the parse oracle comes from the harness's own call of mime.ParseMediaType on the first header line as written
+	// (the default media type when there is none or it is empty), NOT from runtime.ContentType, whose answer is an
+	// observable compared with it
+	asked := ""
+	if len(in.CT) > 0 {
+		asked = string(in.CT[0])
+	}
+	if asked == "" {
+		asked = "application/octet-stream"
+	}
+	obs.Asked = Bs(asked)
+	if mt, _, err := mime.ParseMediaType(asked); err == nil {
+		p := Bs(mt)
 		obs.Parse = &p
-		if mt, _, err := mime.ParseMediaType(ct); err == nil {
-			rp := Bs(mt)
+		if mt2, _, err := mime.ParseMediaType(mt); err == nil {
+			rp := Bs(mt2)
 			obs.Reparse = &rp
 		}
+	}
+	pp, pm := recoverTo(func() {
+		if ct, _, err := runtime.ContentType(c06Request(in).Header); err == nil {
+			p := Bs(ct)
+			obs.CTImpl = &p
+		}
+	})
+	if pp {
+		msgs = append(msgs, "ContentType: "+pm)
 	}
 
 	// typed
@@ -440,17 +519,30 @@ func c06OptStatus(s int) string {
 func (c06) Coq(inAny any, obsAny any) string {
 	in, obs := inAny.(c06In), obsAny.(c06Obs)
 	if obs.RouteMiss {
-		return "CGate [] [] [] [] false false false true None None None None None None 0 None false"
+		return "CGate [] [] [] [] [] false false false true [] [] None None None None None None None 0 None false"
 	}
 	clPos := in.Body == "cl"
 	hdr := in.Body == "cl0hdr"
 	nonempty := in.Body == "cl" || in.Body == "chunked" || in.Body == "cl0hdr"
-	return fmt.Sprintf("CGate %s %s %s %s %s %s %s %s %s %s %s %s %s %s %d %s %s",
-		coqBytesList(bsList(in.Declared)), coqBytes(string(in.Default)), coqBytesList(bsList(obs.Consumes)), coqBytesList(bsList(obs.Keys)),
+	return fmt.Sprintf("CGate %s %s %s %s %s %s %s %s %s %s %s %s %s %s %s %s %s %s %d %s %s",
+		coqBytesList(bsList(in.Declared)), coqBytes(string(in.Default)), coqBytesList(c06APIConsumers(in)),
+		coqBytesList(bsList(obs.Consumes)), coqBytesList(bsList(obs.Keys)),
 		coqBool(clPos), coqBool(hdr), coqBool(nonempty), coqBool(obs.HasBody),
-		c06OptBytes(obs.Parse), c06OptBytes(obs.Reparse),
+		coqBytesList(bsList(in.CT)), coqBytes(string(obs.Asked)),
+		c06OptBytes(obs.Parse), c06OptBytes(obs.Reparse), c06OptBytes(obs.CTImpl),
 		c06OptStatus(obs.T.Status), c06OptBytes(obs.T.Cons), c06OptStatus(obs.U.Status), c06OptBytes(obs.U.Cons),
 		obs.HStatus, c06OptBytes(obs.HCons), coqBool(obs.HRan))
+}
+
+// the media types a consumer is registered for on the API: the case's list, plus JSON (untyped.NewAPI registers it)
+func c06APIConsumers(in c06In) []string {
+	out := []string{"application/json"}
+	for _, mt := range in.Registered {
+		if string(mt) != "application/json" {
+			out = append(out, string(mt))
+		}
+	}
+	return out
 }
 
 func (c06) Classify(inAny any, obsAny any) []string { return nil }
@@ -476,6 +568,12 @@ func (c06) Category(inAny any, obsAny any) (string, bool) {
 		hdr = "duplicate"
 	case strings.Contains(string(in.CT[0]), ";"):
 		hdr = "params"
+	}
+	for _, l := range in.CT {
+		if strings.Contains(string(l), ",") {
+			hdr = "comma-" + hdr
+			break
+		}
 	}
 	lst := fmt.Sprintf("%dentries", len(obs.Consumes))
 	if wild {
